@@ -94,7 +94,8 @@ Print Assumptions C19_history_from_clauses.
 
 (* bookkeeping after every history: equal array lengths and non-negative counters (the preconditions of C19_decision
    are maintained by the driver), belief = device content, the idle slot 0 is never released (so `to_insert > 0` in
-   upload() loses nothing), program names unique *)
+   upload() loses nothing; the counting argument is C19_history_refcounts / C19_history_idle_slot below), program
+   names unique *)
 Theorem C19_history_bookkeeping : forall total ops,
   let d := run (clear total) ops in
   length (dv_hashes d) = length (dv_refs d) /\ length (dv_caps d) = length (dv_refs d) /\
@@ -102,6 +103,52 @@ Theorem C19_history_bookkeeping : forall total ops,
   NoDup (map pg_name (dv_known d)).
 Proof. exact history_bookkeeping. Qed.
 Print Assumptions C19_history_bookkeeping.
+
+(* Reference counts (the argument behind "slot 0 is never released").  After every history the count of slot i is at
+   least the number of known programs that play from slot i, plus one for slot 0, which the idle sequence plays from.
+   Histories include programs with a segment that is bit-identical to the idle waveform (`idle_seg`, hash IDLE): the
+   placement maps it to slot 0 (C19_find_positions_first), upload() counts the re-use (`waveform_to_segment >= 0`) and
+   free_program() un-counts it. *)
+Theorem C19_history_refcounts : forall total ops i,
+  let d := run (clear total) ops in
+  (i < length (dv_refs d))%nat ->
+  Z.of_nat (length (filter (fun p => existsb (Z.eqb (Z.of_nat i)) (pg_w2s p)) (dv_known d)))
+  + (if Nat.eqb i 0 then 1 else 0) <= nth i (dv_refs d) 0.
+Proof. exact history_refcounts. Qed.
+Print Assumptions C19_history_refcounts.
+
+(* The idle slot after every history: it exists, the instrument and the driver's record hold the idle waveform in it
+   (no upload writes to it, no cleanup drops it), and its count exceeds the number of programs sharing it. *)
+Theorem C19_history_idle_slot : forall total ops,
+  let d := run (clear total) ops in
+  (1 <= length (dv_dev d))%nat /\ nth 0%nat (dv_dev d) 0 = IDLE /\ nth 0%nat (dv_hashes d) 0 = IDLE /\
+  Z.of_nat (length (filter (fun p => existsb (Z.eqb 0) (pg_w2s p)) (dv_known d))) + 1 <= nth 0%nat (dv_refs d) 0.
+Proof. exact history_idle_slot. Qed.
+Print Assumptions C19_history_idle_slot.
+
+(* non-vacuity for slot 0: programs 1 and 2 both contain `idle_seg` and share slot 0 (count 3), program 1 is removed
+   (count 2, program 2 still plays from slot 0), program 3 with an unknown 192-point segment does not get slot 0 *)
+Theorem C19_history_slot0_nonvacuous :
+  let d := run (clear 100000) slot0_ops in
+  let d' := run (clear 100000) (slot0_ops ++ [slot0_next]) in
+  map (fun p => (pg_name p, pg_w2s p)) (dv_known d) = [(2%nat, [0; 2])] /\ dv_refs d = [2; 0; 1] /\
+  map (fun p => (pg_name p, pg_w2s p)) (dv_known d') = [(3%nat, [3; 1]); (2%nat, [0; 2])] /\
+  dv_dev d' = [0; 14; 12; 13] /\ dv_refs d' = [2; 1; 1; 1].
+Proof. exact slot0_history. Qed.
+Print Assumptions C19_history_slot0_nonvacuous.
+
+(* ... and the count of the re-use of slot 0 is necessary: the driver model with the mask `waveform_to_segment > 0`
+   (`run_counted`; with `>= 0` it is `run`) leaves slot 0 with count 0 while program 2 plays from it, and then
+   registers program 3 with waveform_to_segment = -1 for a segment that was never written *)
+Theorem C19_slot0_reuse_must_be_counted :
+  (forall d ops, run_counted (fun p => 0 <=? p) d ops = run d ops) /\
+  let gt := fun p => 0 <? p in
+  let d := run_counted gt (clear 100000) slot0_ops in
+  let d' := run_counted gt (clear 100000) (slot0_ops ++ [slot0_next]) in
+  map (fun p => (pg_name p, pg_w2s p)) (dv_known d) = [(2%nat, [0; 2])] /\ dv_refs d = [0; 0; 1] /\
+  map (fun p => (pg_name p, pg_w2s p)) (dv_known d') = [(3%nat, [-1; 1]); (2%nat, [0; 2])] /\ dv_dev d' = [0; 14; 12].
+Proof. exact slot0_reuse_must_be_counted_full. Qed.
+Print Assumptions C19_slot0_reuse_must_be_counted.
 
 (* non-vacuity: a history with sharing, removal, slot re-use and a forced re-upload *)
 Theorem C19_history_nonvacuous :
